@@ -175,6 +175,17 @@ func (u *UserHash) writeHashStr(password string, isAdmin bool, mayCreate bool) e
 	}
 	defer file.Close() //nolint:errcheck
 
+	stored := false
+	if mayCreate {
+		// the file has just been created (empty) to reserve the name: don't leave it
+		// behind if anything fails before the new hash has been moved in place
+		defer func() {
+			if !stored {
+				os.Remove(file.Name()) //nolint:errcheck
+			}
+		}()
+	}
+
 	tmp, err := u.store.getTempFile()
 	if err != nil {
 		return err
@@ -210,6 +221,7 @@ func (u *UserHash) writeHashStr(password string, isAdmin bool, mayCreate bool) e
 	if err := os.Rename(tmp.Name(), file.Name()); err != nil {
 		return err
 	}
+	stored = true
 
 	// Flush the move to disk
 	dir, err := os.Open(filepath.Dir(file.Name()))
